@@ -177,6 +177,11 @@ let eval_z sec nsec off =
 let eval inp = match words inp with
   | ("V" | "W") :: _ -> "ok"
   | ["Z"; s; n; o] -> eval_z (int_of_string s) (int_of_string n) (int_of_string o)
+  (* ZF (round 5): a real time under FileInfo.TimeFormat = a caller-chosen layout ("-": the field left
+     empty).  The harness compares the two headers Unified and Context write with time.Format under
+     that layout (the Go runtime is the reference for what a layout spells); the zero time is never
+     written, every other time always is. *)
+  | ["ZF"; _lay; s; n; _o] -> if int_of_string s = zero_sec && int_of_string n = 0 then "zero" else "same"
   | _ -> eval_v M.pinned inp
 
 (* ---- the property on the implementation's output ---- *)
@@ -348,6 +353,8 @@ let well_formed inp =
     | ["V"; _; l; r; t] -> ignore (unhexs l); ignore (unhexs r); ignore (unhex t); true
     | ["W"; l; r; cs; _; _; _] -> ignore (unhexs l); ignore (unhexs r); ignore (dec_chunks cs); true
     | ["Z"; s; n; o] -> ignore (int_of_string s); ignore (int_of_string o); let n = int_of_string n in n >= 0 && n < 1000000000
+    | ["ZF"; lay; s; n; o] -> if lay <> "-" then ignore (unhex lay); ignore (int_of_string s); ignore (int_of_string o);
+      let n = int_of_string n in n >= 0 && n < 1000000000
     | _ -> false)
   with _ -> false
 
@@ -383,6 +390,10 @@ let spec prop inp out =
   | "A" :: _ -> spec_a inp out
   | "G" :: _ -> spec_g inp out
   | "Q" :: _ -> spec_q inp out
+  | ["ZF"; _; s; n; _] ->
+    let zero = (int_of_string s = zero_sec && int_of_string n = 0) in
+    if out = (if zero then "zero" else "same") then None
+    else Some "FileInfo.TimeFormat: the file headers Unified and Context write do not carry the time as time.Format spells it under the caller's layout (or under the default layout when the field is empty), or the body changed with the option"
   | ["Z"; s; n; o] ->
     (* the property: default-format timestamps survive (for the times the layout can express) *)
     let s = int_of_string s and n = int_of_string n and o = int_of_string o in
